@@ -11,6 +11,10 @@ import (
 )
 
 func main() {
+	if raw := os.Getenv(firstDoEnv); raw != "" {
+		firstDoChild(raw) // (firstdo.go: the fresh process of the part "firstdo")
+		return
+	}
 	cfg := lib.ParseFlags()
 	res := lib.NewResult("C13")
 	res.Rule = "controlled part: a case is (loader tree, one operation list per goroutine, schedule); real goroutines are driven " +
@@ -39,6 +43,12 @@ func main() {
 		}
 		if part("discover") {
 			runDiscover(cfg, res, rng)
+		}
+		if part("namespaces") {
+			runNs(cfg, res, lib.NewRng(cfg.Seed*7919+13))
+		}
+		if part("firstdo") {
+			runFirstDo(cfg, res, lib.NewRng(cfg.Seed*7919+17))
 		}
 		if part("lazy") {
 			runLazy(cfg, res, rng)
@@ -96,7 +106,7 @@ func dcheck(c caseT, rr *runResult) []verdict {
 				vs = append(vs, verdict{"no-crash", fmt.Sprintf("goroutine %d: %s escaped with a runtime fault: %s", t, c.Prog[t][i], r.Text), nil})
 			case r.Kind == "other":
 				vs = append(vs, verdict{"no-crash", fmt.Sprintf("goroutine %d: %s escaped with an error that no operation of the program can raise: %s", t, c.Prog[t][i], r.Text), nil})
-			case r.Kind == "fileerr" && !(c.Prog[t][i].Kind == "Load" && w.badLevel(c.Prog[t][i].L, c.Prog[t][i].N)):
+			case r.Kind == "fileerr" && !(c.Prog[t][i].Kind == "Load" && w.badLevel(c.Prog[t][i].L, c.Prog[t][i].N, c.Prog[t][i].S)):
 				vs = append(vs, verdict{"no-crash", fmt.Sprintf("goroutine %d: %s escaped with the error of an instantiator although no file of that name is broken: %s", t, c.Prog[t][i], r.Text), nil})
 			}
 		}
@@ -109,7 +119,7 @@ func dcheck(c caseT, rr *runResult) []verdict {
 	}
 	// 3. agreement: all loads of a name through a loader that return a value return the same one - demanded when all
 	// definitions of the name inside the loader's chain (Define operations and files) are in one loader
-	type ln struct{ l, n int }
+	type ln struct{ l, n, s int }
 	seen := map[ln]int{}
 	for t, th := range rr.Results {
 		for i, r := range th {
@@ -117,7 +127,7 @@ func dcheck(c caseT, rr *runResult) []verdict {
 			if o.Kind != "Load" || r.Kind != "found" || !r.Found {
 				continue
 			}
-			k := ln{o.L, o.N}
+			k := ln{o.L, o.N, o.S}
 			if old, ok := seen[k]; ok && old != r.Val && singleDefiner(c, w, o.L, o.N) {
 				vs = append(vs, verdict{"agreement", fmt.Sprintf("Load(l%d,%s) returned v%d to one goroutine and v%d to another", o.L, nameTab[o.N], old, r.Val), nil})
 			} else if !ok {
@@ -134,7 +144,7 @@ func dcheck(c caseT, rr *runResult) []verdict {
 			if o.Kind != "Define" || r.Kind != "defined" {
 				continue
 			}
-			k := ln{o.L, o.N}
+			k := ln{o.L, o.N, o.S}
 			if old, ok := defd[k]; ok && old != r.Val {
 				vs = append(vs, verdict{"agreement", fmt.Sprintf("two definitions of %s in l%d were both accepted: one goroutine was told that v%d is bound, another that v%d is", nameTab[o.N], o.L, old, r.Val), nil})
 			} else if !ok {
@@ -156,8 +166,10 @@ func dcheck(c caseT, rr *runResult) []verdict {
 				for i, r := range th {
 					o := c.Prog[t][i]
 					if o.Kind == "Load" && r.Kind == "found" && rr.Overlap[t][i] {
-						if d := w.fileLevel(o.L, o.N); d >= 0 && !(r.Found && r.Val == fileVid(d, o.N, 0)) {
-							fixed[t][i] = opRes{Kind: "found", Found: true, Val: fileVid(d, o.N, 0)}
+						// (the mark of an instantiation in progress is stored under the name of the FIRST namespace of the
+						// SmartPath: a load through another namespace of a Multi loader never meets it and is not in the class)
+						if d := w.fileLevel(o.L, o.N, o.S); d >= 0 && o.S <= 1 && !(r.Found && r.Val == fileVidS(d, o.N, o.S, 0)) {
+							fixed[t][i] = opRes{Kind: "found", Found: true, Val: fileVidS(d, o.N, o.S, 0)}
 							changed = true
 						}
 					}
@@ -715,7 +727,19 @@ func replay(cfg *lib.Config, res *lib.Result) {
 					hasDisc = hasDisc || o.Kind == "Discover"
 				}
 			}
-			if hasDisc {
+			if isMultiCase(c) {
+				nf := nsCasesFile()
+				e.emit = func(c caseT, rr *runResult) {
+					if nsModelled(c) {
+						nf.Add(gNsCase(c, rr), c.input(rr.Sched))
+					}
+				}
+				e.visit(c, rr, "replay", true)
+				e.emit = nil
+				if len(nf.Cases) > 0 {
+					res.CorrFiles = append(res.CorrFiles, nf.WriteTo(cfg.Out, "cases_ns"))
+				}
+			} else if hasDisc {
 				df := discCasesFile()
 				e.emit = func(c caseT, rr *runResult) {
 					if discModelled(c) {
@@ -736,6 +760,8 @@ func replay(cfg *lib.Config, res *lib.Result) {
 			replayReg(cfg, res, in)
 		case "race":
 			replayRace(cfg, res, in)
+		case "firstdo":
+			replayFirstDo(cfg, res, in)
 		default:
 			fmt.Println("unknown replay input kind " + strings.TrimSpace(k.Kind))
 		}
